@@ -12,7 +12,9 @@ Open Scope Z_scope.
    answers the state the handler returned (Fail when it raised), the consumer's "non final" states are
    exactly Wait and Start, the response states that complete a call at once are final states, such a
    completion keeps the report parts received so far, the id counter is incremented under its lock,
-   both bounds are positive *)
+   every access of the consumer's manager to its buffer and its table of pending transactions happens
+   with _transactions_lock held (so that one model step is one critical section and a concurrent
+   execution is the sequence of its critical sections), both bounds are positive *)
 Theorem C09_gen_consts_ok : gen_ok = true.
 Proof. vm_compute. reflexivity. Qed.
 Print Assumptions C09_gen_consts_ok.
@@ -228,6 +230,15 @@ Theorem C09_failed_parts_refuted :
   done_of 1 (crun_orig cinit es) = [mkCR Fail Fail true []].
 Proof. vm_compute. auto. Qed.
 Print Assumptions C09_failed_parts_refuted.
+
+(* why the lock discipline is part of gen_ok: a notification handler that leaves the critical section
+   before it buffers the part of a (still) unknown transaction lets the response slip in between -- the
+   final part ends up in the buffer, the call stays registered and never completes *)
+Theorem C09_unlocked_buffer_refuted :
+  let s := urun_gen (mkU cinit []) [UDecide (mkCP 1 Fin 0); UResp 1 Wait; UFlush] in
+  done_of 1 (u_c s) = [] /\ aget 1 (c_pend (u_c s)) = Some (Wait, []) /\ c_recent (u_c s) = [mkCP 1 Fin 0].
+Proof. vm_compute. auto. Qed.
+Print Assumptions C09_unlocked_buffer_refuted.
 
 Example C09_nonvacuous :
   (* queued processing, raising handler, a second consumer's direct request in between *)
